@@ -18,24 +18,28 @@ CLAIMED = {
          "Proof: Props/C10.lean (generic, unbounded over base/direction/offset/value) and Props/C10Inst.lean (decide +kernel "
          "over every dated rounding entry and every rule carrying a rounding key, regenerated from /repo each run); the "
          "wrapper and the loader's spec selection are tied to the code by differential runs; float evaluation of the real "
-         "wrapper is only explored (partial there)."),
+         "wrapper is only explored (partial there)."
+         " Concrete model: Props/C10Sim.lean (ruleOp_rounding_factor: rounding is applied once, after the rule; roundWith_eq_roundTo; ruleOp_rounded_values: grid, direction, error < base; nodeOf_rounding_only_rules; plan_missing_spec_is_error)."),
  "C11": ("5/C11", "Lean 4 theorems: scatter/gather aggregation model equals the fold over the group's members, "
          "permutation / relabelling invariance, conservation, pointer sums, joins, loud guards; model tied to "
          "aggregation_numpy.py / shared.join_numpy by differential runs; definition-oracle search on every aggregation node",
          "Proof: Props/C11.lean for all columns, ids and sizes; correspondence (exact on dyadic values) ties the model to the "
          "code; the real graph's aggregation nodes and the precedence auto < built-in < user are searched against an "
-         "independent reference. numpy_groupies itself is modelled, not verified."),
+         "independent reference. numpy_groupies itself is modelled, not verified."
+         " Concrete model: Props/C11Sim.lean (groupAggFns_user_wins / _automatic / _only_if / _never_shadows, buildFunctions_merge_order: precedence of user specs over automatic sums in Core/Simulate.lean)."),
  "C12": ("5/C12", "Lean 4 theorems: partition specifications of the six id constructors by scan invariants (pairId/snId/bgId/"
          "wthhId/fgId incl. order independence of the family unit), nesting and collision lemmas; exact-id correspondence "
          "with groupings.py; exhaustive enumeration of small valid structures x all row orders against the unit definitions",
          "Proof: Props/C12.lean (fg_spec, pairId_spec, snId_spec, bgId_spec, nesting) for every valid pointer structure and "
          "row order; the algorithms are modelled as written and compared id-for-id with the code, also on invalid inputs; "
-         "the search is exhaustive up to 3 (quick) / 4 persons (thorough)."),
+         "the search is exhaustive up to 3 (quick) / 4 persons (thorough)."
+         " Props/C12Cor.lean: order independence, separability, relabelling and nesting / non-collision corollaries for all six constructors."),
  "C13": ("5/C13", "Lean 4 theorems over ℚ: the 12 converters are multiplication by fixed factors, round trip, composition, "
          "additivity (commutes with sums), name-pattern parser and creation rules of derived nodes; parser/factory tied to "
          "time_conversion.py by differential runs on the real name universe; ratio search on the real graph",
          "Proof: Props/C13.lean; constants regenerated from time_conversion.py; float round-off of the real converters is "
-         "only explored (≤ 2^-40 relative)."),
+         "only explored (≤ 2^-40 relative)."
+         " Concrete model: Props/C13Sim.lean (timeConvOp_values, timeConvOp_round_trip, timeConvOp_groupSum_commute on Core/Simulate.lean)."),
  "C18": ("5/C18", "Lean 4 theorems on piecewise-polynomial schedules (bin selection, evaluation = polynomial of the unique "
          "piece, continuity of generated intercepts, monotone / convex / marginal rate <= top rate / soli <= rate*tax + 1 cent "
          "from decidable coefficient conditions, parser accepts only well-formed input) + kernel-decided conditions for every "
@@ -49,29 +53,39 @@ CLAIMED = {
  "C01": ("5/C01", "Lean 4 theorems on the abstract evaluation of the dependency graph (eval_respects: any relation respected by all node "
          "operations and by the data is respected by every node; instances: row-wise operations and commutative-associative group "
          "aggregations are equivariant under every row permutation; fg_id/pairId partition theorems from C12 are order independent) + "
-         "metamorphic search on the real system over adversarial row orders and index labellings, all nodes",
+         "metamorphic search on the real system over adversarial row orders and index labellings, all nodes"
+         " + the same on the CONCRETE model of compute_taxes_and_transfers (Core/Simulate.lean, tied to the real interface by T3 toy systems): node operations and DAG evaluation equivariant under row permutations",
          "Proof: Props/C01.lean (simulate_perm, simulate_perm_grouped, eval_respects for arbitrary systems, data, permutations) on the "
          "abstract DAG model Core/Dag.lean; the node kinds' models (Agg, Groupings, VecDtype) are tied to the code by C11/C12/C03 "
-         "correspondences; the assembly of the real function set is explored, not modelled: partial there."),
+         "correspondences; the assembly of the real function set is explored, not modelled: partial there."
+         " Concrete model: Props/C01Sim.lean (ruleOp/timeConvOp/groupAggOp/pidSumOp of Core/Simulate.lean equivariant under every row permutation, lifted through Dag.eval: sys_eval_perm, pruned_eval_perm, …_fails_iff; witness that an undeclared return type breaks it), Props/C12Cor.lean (every id constructor: partition independent of the row order)."),
  "C02": ("5/C02", "Lean 4 theorems: simulate_union (row-wise and group-aggregation nodes whose id columns are not cut evaluate on A++B "
          "restricted to A as on A), relabel_invariance under injective id relabellings, union_separable_grouped; metamorphic search on "
-         "the real system (A, B, A++B, B++A, interleavings, relabelled A; all nodes)",
+         "the real system (A, B, A++B, B++A, interleavings, relabelled A; all nodes)"
+         " + separability of the concrete node operations and DAG evaluation of Core/Simulate.lean, union/relabelling corollaries for all id constructors",
          "Proof: Props/C02.lean on the abstract DAG model for arbitrary systems and populations; ties as for C01; the derived-id "
-         "arithmetic (hh*100+flag, fg*100+k with k<100) is covered by C12 (wthh_no_collision, bg_nests_in_fg, bg_collision_at_100)."),
+         "arithmetic (hh*100+flag, fg*100+k with k<100) is covered by C12 (wthh_no_collision, bg_nests_in_fg, bg_collision_at_100)."
+         " Concrete model: Props/C02Sim.lean (ruleOp/groupAggOp/pidSumOp on A++B restricted to A = on A under disjoint group ids / closed pointers, lifted: sys_eval_union, pruned_eval_union, sys_eval_union_of_parts; counterexamples without the separation hypotheses), Props/C12Cor.lean (union and relabelling theorems for all id constructors)."),
  "C04": ("5/C04", "Lean 4 theorems: prune_sound, targets_indep, run_shape, extra_data_irrelevant on the abstract DAG model; search on "
-         "the real system: every node alone / in random target sets / with all nodes, noise columns, debug and minimal-specification options",
+         "the real system: every node alone / in random target sets / with all nodes, noise columns, debug and minimal-specification options"
+         " + target independence, sub-target success and row count proved for the concrete model Core/Simulate.lean; node-purity search (read-only inputs)",
          "Proof: Props/C04.lean for arbitrary systems, data, fuel and target lists; the real creation of automatic group sums from the "
-         "target list and the result assembly are explored on the real system (bit-identical comparison), not modelled: partial there."),
+         "target list and the result assembly are explored on the real system (bit-identical comparison), not modelled: partial there."
+         " Concrete model: Props/C04Sim.lean (simulate_target_indep at full strength for Core/Simulate.lean, simulate_subtargets_succeed, simulate_rows, buildFunctions_targets_agree); the proof exposed a defect of the Python code, repaired by 86c6dca."),
  "C05": ("5/C05", "Lean 4 theorems: override_equiv (supplying a node's own value changes no other node), override_used (data wins over "
          "the function of the same name), overridden_spec (the overlap that triggers the warning); search on the real system over the "
-         "nodes of the default graph incl. the warning and 'supplied column is used'",
+         "nodes of the default graph incl. the warning and 'supplied column is used'"
+         " + feed-back theorem with necessary side conditions and 'supplied column is used' on the concrete model",
          "Proof: Props/C05.lean on the abstract DAG model; time-unit re-association through a supplied unit is covered by C13 "
-         "(conv_compose) over Q and explored with 1e-9 tolerance on floats."),
+         "(conv_compose) over Q and explored with 1e-9 tolerance on floats."
+         " Concrete model: Props/C05Sim.lean (simulate_feed_back_gen/_compat with the necessary side conditions S/T/F, each shown necessary by a kernel-checked counterexample; simulate_supplied_is_used; the unconditional statement is refuted for the model: simulate_feed_back_false)."),
  "C06": ("5/C06", "Lean 4 theorems: locality (systems agreeing outside U agree on every node that cannot reach U), replace_by_copy, "
          "params_locality; search on the real system: per-group parameter perturbations, function replacements, identical copies, "
-         "bit-identical comparison outside the predicted cone",
+         "bit-identical comparison outside the predicted cone"
+         " + parameter-reform locality proved for the concrete model; rounding-rule reforms in the search",
          "Proof: Props/C06.lean on the abstract DAG model for arbitrary systems; users(g) (rules with a <g>_params argument or rounding key "
-         "g) is computed from the real function objects in the search."),
+         "g) is computed from the real function objects in the search."
+         " Concrete model: Props/C06Sim.lean (simulate_params_locality, simulate_params_copy, simulate_rule_copy for Core/Simulate.lean)."),
  "C07": ("5/C07", "Lean 4 theorems on the parameter-loader model: latest_spec, loadGroup_cut / env_cut (the environment depends on the date "
          "only through finitely many entry-date cuts at the probes subYear^k d, jan1, and the year), functionsFor_spec / active_unique / "
          "functionsFor_cut, conflictTest_iff_overlap; kernel-decided registry obligations (pairwise disjoint validity intervals for all "
@@ -90,9 +104,11 @@ CLAIMED = {
  "C03": ("5/C03", "Lean 4 theorems on the model of numpy.vectorize with declared output type: dtype independent of the data, element = "
          "cast of the rule's result, lossless for float, equivariance; kernel-checked witnesses that dtype *inference* depends on "
          "the first row; model compared with the real _vectorize_func; search: every scalar rule's column vs the rule called row by "
-         "row, dtype vs declaration",
+         "row, dtype vs declaration"
+         " + verified result-kind analysis run over all rules (static obligations) + row-wise specification of the concrete ruleOp",
          "Proof: Props/C03.lean; the wrapper model is tied to functions_loader._vectorize_func by exact differential runs; that each "
-         "rule's results are lossless for its declared type is explored on the real system (row-by-row recomputation), not proved."),
+         "rule's results are lossless for its declared type is explored on the real system (row-by-row recomputation), not proved."
+         " Props/C03Types.lean: verified result-kind analysis of the rule language (tyFun_sound, declared_cast_lossless, declared_column_lossless) executed over every rule of the modelled fragment at the sampled dates (one obligation per rule and date: the cast to the declared dtype is lossless for every possible result); Props/C03Sim.lean: ruleOp_rowwise_spec / ruleOp_row_independent / ruleOp_dtype_declared on the concrete model."),
  "C14": ("5/C14", "Lean 4 theorems on a state machine of the Python process (module bindings, injected names, registry, caller objects): "
          "for the repaired transitions every operation is the identity on the state, hence history_indep by induction over the "
          "history; kernel-checked two-step witnesses for the original (unrepaired) transitions; random histories of real API calls "
@@ -105,20 +121,23 @@ CLAIMED = {
          "search with populations whose members differ in the individual-level inputs",
          "Proof: Props/C15.lean; one obligation per suffixed node and date, evaluated by the Lean interpreter on the regenerated "
          "graph (not kernel-decided); nodes in the cone of a recorded finding (three roots) are not claimed; the refinement order "
-         "(incl. eg within bg) is an assumption backed by the C12 theorems and checked on every generated population."),
+         "(incl. eg within bg) is an assumption backed by the C12 theorems and checked on every generated population."
+         " Concrete model: Props/C15Sim.lean (groupAggOp_const, ruleOp_const, timeConvOp_const, sys_eval_const, suffix_check_sound)."),
  "C20": ("5/C20", "Lean 4 theorems on the model of the input validators and type conversion: accepts_iff (declarative characterisation), "
          "one rejection theorem per fault class, convert_lossless under the explicit 2^53 guard with a kernel-checked witness beyond "
          "it, convert_rejects_lossy, warning_iff_converted; model compared with the real functions on every dtype pair and on random "
          "fault-injected tables; fault injection on the real system",
          "Proof: Props/C20.lean; pandas/numpy conversions are modelled from probes of the installed versions (table in "
-         "Core/Typing.lean) and compared on every run; sn-consistency of spouses is C12's snId_error_iff."),
+         "Core/Typing.lean) and compared on every run; sn-consistency of spouses is C12's snId_error_iff."
+         " Concrete model: Props/C20Sim.lean (checkData_ok_iff, convertCol_lossless, convertCol_error_iff, convertData_only_typed on Core/Simulate.lean)."),
  "C17": ("5/C17", "Lean 4 theorems over the shallow ℚ/Bool definitions of the ten decision rules (regenerated from /repo by the "
          "translator every run): ALG II > 0 excludes Kinderzuschlag and Wohngeld, Grundsicherung excludes all three, Kinderzuschlag "
          "only if need covered, needs unit within one part-household; definitions compared with the repo source on exact rationals; "
          "rule-level exhaustive search over the Boolean cube and population search across the break-even points",
          "Proof: Props/C17.lean for all real amounts and flag values; the aggregation to part-households is modelled by its C11/C12 "
          "specification (any over members sharing the wthh flag); group-constancy of the inputs is C15's subject (three recorded "
-         "findings there concern wealth allowance / Wohngeld rent inputs, not the priority logic)."),
+         "findings there concern wealth allowance / Wohngeld rent inputs, not the priority logic)."
+         " The rules are also generated wired by argument NAME (Consistent ρ β); the wired theorems (kiz_only_if_need_covered_wired, alg2_kiz_exclusive_wired, grunds_excludes_others_wired, alg2_pos_need_uncovered_wired) depend on which columns the current sources read."),
  "C08": ("5/C08", "Lean 4 theorems: a topological certificate implies acyclicity and bounded evaluation depth (cert_sound, "
          "eval_terminates_with_fuel_n, rootsAllowed_spec); the real default-target graphs from 2015-01-01 on (one per distinct function "
          "table, regenerated every run) are certified by the kernel (acyclic, every leaf a documented input / parameter-only rule); "
@@ -126,7 +145,8 @@ CLAIMED = {
          "stubs are checked in the Lean environment model; corner-population search on the real system",
          "Proof: Props/C08.lean + Props/C08Inst.lean (decide +kernel on 13 regenerated graphs); the classes of days come from the C07 "
          "cut theorem; parameter paths are looked up in the Lean loader model (interpreter), which is compared with the real loader; "
-         "dynamic subscripts (household size, birth-year tables) are covered only by their static prefix and by the search: partial there."),
+         "dynamic subscripts (household size, birth-year tables) are covered only by their static prefix and by the search: partial there."
+         " Concrete model: Props/C08Sim.lean (plan_roots_are_data, plan_acyclic, exec_fuel_suffices: a successful plan is complete, acyclic, and the fuel bound is no source of errors)."),
  "C19": ("5/C19", "verified symbolic evaluator (Core/Sym.lean, soundness in Props/SymSound.lean): for a chain of rules as a function of one "
          "real input it certifies piecewise-affine forms on intervals and decides non-negativity, monotonicity, zero below a limit, "
          "constancy above a ceiling, continuity at a point and sum identities for ALL wages >= 0; the chains are built from the real "
@@ -146,7 +166,8 @@ CLAIMED = {
          "without negative leaves); PARTIAL: the analysis classifies 7-8 of the 18 default targets (transfers with clamps); income tax, "
          "soli (piecewise schedules: covered by C18's eval_nonneg_of_mono), the four contributions (covered for all wages by C19) and "
          "pensions are listed as not classified in the evidence and rest on those properties and on the search; finiteness (no NaN/inf) "
-         "is explored only; evaluated by the Lean interpreter on regenerated graphs, not by the kernel."),
+         "is explored only; evaluated by the Lean interpreter on regenerated graphs, not by the kernel."
+         " Props/C16PE.lean: verified partial evaluation of the parameter trees (peFun_sound, peGraph_sem, signTablePE_sound) before the sign analysis; the facts certified on the unchanged tree (9 default targets, 2 caps) are claimed obligations: a fact the analysis can no longer derive from the current sources is reported."),
 }
 
 NOT_YET = "check not built yet in this round (design in DESIGN.md §5); the property itself is in scope of the technique"
